@@ -1,6 +1,8 @@
 import Gomjml.Gen.LengthSites
 import Gomjml.Core.Widths
 import Gomjml.Core.Lengths
+import Gomjml.Gen.Misc
+import Gomjml.Gen.PkgVars
 /-! # C10 — width flow: boxes nest and Outlook pixel widths match the responsive layout (property theorems only)
 
 `Widths.impl` is the Model of the code's width flow (tied to the code by the exact correspondence run of `hx C10`);
@@ -162,5 +164,40 @@ theorem C10_length_sites :
       ("mjml/components.(*MJWrapperComponent).getEffectiveWidth", "styles.ParseHorizontalSpacing", "3"),
       ("mjml/components.(*MJWrapperComponent).getEffectiveWidth", "styles.ParsePixel", "2"),
       ("mjml/components.computeVMLPosition", "strconv.ParseFloat", "1")] := by decide
+
+/-! ### the pixel-width strings kept as constants (`getPixelWidthString`) -/
+
+/-- the Model of `getPixelWidthString` over its regenerated case table: a listed width returns its constant, any other the
+    decimal number followed by `px` -/
+def pixelWidthString (cases : List (String × String × String)) (n : Int) : String :=
+  match cases.find? (fun r => r.1 = toString n) with
+  | some r => r.2.1
+  | none => toString n ++ "px"
+
+/-- the regenerated facts: every kept string is its case value followed by `px`, and is a constant or a package variable
+    that no statement assigns to after its initialisation; the switch is over the width and the default branch writes
+    `strconv.Itoa` of it and `px` -/
+theorem C10_pixel_width_cases :
+    (∀ r ∈ Gomjml.Gen.Misc.pixelWidthCases, r.2.1 = r.1 ++ "px" ∧
+      (r.2.2 = "const" ∨ (r.2.2 ≠ "other" ∧ ∀ w ∈ Gomjml.Gen.PkgVars.pkgVarWriters, w.1 ≠ r.2.2))) ∧
+    Gomjml.Gen.Misc.pixelWidthDefault =
+      [("tag", "widthPx"), ("write", "strconv.Itoa(widthPx)"), ("write", "\"px\""), ("return", "b.String()")] := by decide
+
+/-- **every pixel width is written as the number it is**: for every width, listed or not, the string is the decimal number
+    followed by `px` (a kept string that does not spell its own case — `width150px = "105px"` — breaks this) -/
+theorem C10_pixel_width_string (n : Int) :
+    pixelWidthString Gomjml.Gen.Misc.pixelWidthCases n = toString n ++ "px" := by
+  unfold pixelWidthString
+  split
+  · rename_i r h
+    have hm := List.mem_of_find?_eq_some h
+    have hp := List.find?_some h
+    simp only [decide_eq_true_eq] at hp
+    rw [(C10_pixel_width_cases.1 r hm).1, hp]
+  · rfl
+
+/-- non-vacuity: a listed and an unlisted width -/
+example : pixelWidthString Gomjml.Gen.Misc.pixelWidthCases 600 = "600px" ∧
+    pixelWidthString Gomjml.Gen.Misc.pixelWidthCases 601 = "601px" := by decide
 
 end Gomjml.Props.C10
